@@ -19,6 +19,8 @@ UNORDERED = ('futures_util::stream::stream::StreamExt::buffer_unordered', 'futur
              'futures_util::stream::try_stream::TryStreamExt::try_buffer_unordered', 'futures_util::stream::try_stream::TryStreamExt::try_for_each_concurrent',
              'futures_util::stream::select_all::select_all', 'futures_util::stream::stream::StreamExt::flat_map_unordered')
 BUFFERED = 'futures_util::stream::stream::StreamExt::buffered'
+SHARED_STATE_PREFIX = ('core::cell::', 'core::sync::atomic::', 'std::sync::poison::', 'std::sync::mutex', 'std::sync::rwlock', 'std::sync::mpsc', 'tokio::sync::', 'parking_lot::',
+                       'std::sync::once_lock', 'std::sync::lazy_lock')
 UNORDERED_TYPES = ('futures_util::stream::futures_unordered::FuturesUnordered', 'tokio::task::join_set::JoinSet', 'futures_util::stream::select_all::SelectAll',
                    'futures_util::stream::stream::buffer_unordered::BufferUnordered')
 
@@ -120,6 +122,12 @@ def combinators(facts, cg, writer_bodies):
         for l, loc_ in enumerate(b.locals):
             if b.lty(l).get('adt') in UNORDERED_TYPES and not any(u['in'] == b.q and u['api'] == b.lty(l)['adt'] for u in out['unordered']):
                 out['unordered'].append({'api': b.lty(l)['adt'], 'in': b.q, 'at': b.raw.get('span') or b.q})
+            # ... or state with interior mutability: a cell / atomic / lock is there to be written from one place and read from
+            # another - a stage in front of an ordered buffer that reads what the loop behind it writes (an "adaptive" decision
+            # fed back from the results) sees a value that depends on how far the consumer has got, i.e. on --buffered-chunks and timing
+            adt_ = b.lty(l).get('adt') or ''
+            if adt_.startswith(SHARED_STATE_PREFIX) and not any(u['in'] == b.q and u['api'] == 'shared-state:' + adt_.split('::')[-1] for u in out['unordered']):
+                out['unordered'].append({'api': 'shared-state:' + adt_.split('::')[-1], 'in': b.q, 'at': b.raw.get('span') or b.q})
     return out
 
 
